@@ -102,4 +102,39 @@ func init() {
 		},
 		TrustedBase: []string{stdTrusted, "stubs for sync.Pool, utf8.DecodeRune, unicode.ToLower"},
 	})
+
+	reg(&PropertySpec{
+		ID: "C13", Level: "model_checking",
+		Rule: "one state = one feasible path of the real text-pasting code (profileName, wrapBranch/sanitizedMessage, ParseMessageExpression, Generate*SetRule, GeneratePattern) plus the reference Rego string scanner, on symbolic text bytes; each path is a class of texts (by position of quotes, backslashes, control characters, percent signs, backticks) decided by z3",
+		Harnesses: func(tier string) []HarnessSpec {
+			g := "internal/generator"
+			b := func(n int) map[string]any { return map[string]any{"text_length": "0.." + string(rune('0'+n)) + " symbolic bytes (printable ASCII, tab, newline)"} }
+			if tier == "thorough" {
+				return []HarnessSpec{
+					{Pkg: g, Fn: "VerifC13ProfileName4", Reach: []string{"lexed"}, Bounds: b(4)},
+					{Pkg: g, Fn: "VerifC13ValidationName3", Reach: []string{"lexed"}, Bounds: b(3)},
+					{Pkg: g, Fn: "VerifC13Message4", Reach: []string{"lexed"}, Bounds: b(4)},
+					{Pkg: g, Fn: "VerifC13MessageVars2", Reach: []string{"lexed"}, Bounds: map[string]any{"text": "0..2 characters each side of the placeholder, from a 12-character representative alphabet"}},
+					{Pkg: g, Fn: "VerifC13SetValues3", Reach: []string{"lexed"}, Bounds: b(3)},
+					{Pkg: g, Fn: "VerifC13Pattern3", Reach: []string{"lexed"}, Bounds: b(3)},
+					{Pkg: g, Fn: "VerifC13ParseMessage", Reach: []string{"parsed"}},
+				}
+			}
+			return []HarnessSpec{
+				{Pkg: g, Fn: "VerifC13ProfileName3", Reach: []string{"lexed"}, Bounds: b(3)},
+				{Pkg: g, Fn: "VerifC13ValidationName2", Reach: []string{"lexed"}, Bounds: b(2)},
+				{Pkg: g, Fn: "VerifC13Message3", Reach: []string{"lexed"}, Bounds: b(3)},
+				{Pkg: g, Fn: "VerifC13MessageVars1", Reach: []string{"lexed"}, Bounds: map[string]any{"text": "0..1 characters each side of the placeholder, from a 12-character representative alphabet"}},
+				{Pkg: g, Fn: "VerifC13SetValues2", Reach: []string{"lexed"}, Bounds: b(2)},
+				{Pkg: g, Fn: "VerifC13Pattern2", Reach: []string{"lexed"}, Bounds: b(2)},
+			}
+		},
+		Assumptions: []string{
+			"texts are ASCII: printable characters, tab and newline; bytes >= 0x80 are outside the bound (they are copied through byte-transparently by the code under test)",
+			"the reference scanner in the harness implements Rego's string literal syntax (JSON escapes, raw back-quoted strings, raw control characters illegal) and fmt's %% / %v verbs",
+			"ParseMessageExpression uses regexp, which runs natively on concrete text: there the bytes range over a 12-character representative alphabet (a \" \\ % ' { } space newline v tab backtick) instead of being solver variables",
+			"how the policy engine substitutes placeholder values at evaluation time (sprintf/object.get) is not part of this harness",
+		},
+		TrustedBase: []string{stdTrusted, "symbolic models of fmt.Sprintf, strings.ReplaceAll/Join/Contains/HasPrefix, strings.Builder, json.Marshal(string)"},
+	})
 }
